@@ -25,7 +25,7 @@ theorem sim_pushRoot {c : Conn} {s : Spec} (h : Sim c s) (hr : s.root = none) :
   have hsc := h.rootNone hr
   have hlen : c.pushRoot.txns.length = c.txns.length + 1 := by simp [Conn.pushRoot]
   refine
-    { dbapi := h.dbapi, reconn := h.reconn, nofault := h.nofault, noctx := h.noctx,
+    { dbapi := h.dbapi, reconn := h.reconn, nofault := h.nofault, nolistener := h.nolistener, noctx := h.noctx,
       noauto := h.noauto, committed := h.committed, working := h.working, sorted := h.sorted,
       bound := h.bound, kindsLen := ?_, kindsAt := ?_, root := ?_, rootOk := ?_, rootNone := ?_,
       clean := (fun hh => by simp at hh), savesNone := (fun hh => by simp at hh), chain := ?_, saves := ?_, others := ?_ }
@@ -123,7 +123,7 @@ theorem execute_sim' {c : Conn} {s : Spec} (h : Sim c s) (q : Sql) :
   | mk o r =>
     cases o with
     | some db => rfl
-    | none => simp [Conn.dbapiError, hin]
+    | none => simp [dbapiError_err_plain _ h1.nolistener hin]
 
 theorem sim_write {c : Conn} {s : Spec} (h : Sim c s) {t : Nat} (ht : s.root = some t) (d : Data) :
     Sim { c with db := c.db.write d } { s with cur := d } := by
@@ -131,7 +131,7 @@ theorem sim_write {c : Conn} {s : Spec} (h : Sim c s) {t : Nat} (ht : s.root = s
     simp [DB.write, h.noauto]
   rw [hw]
   exact
-    { dbapi := h.dbapi, reconn := h.reconn, nofault := h.nofault, noctx := h.noctx,
+    { dbapi := h.dbapi, reconn := h.reconn, nofault := h.nofault, nolistener := h.nolistener, noctx := h.noctx,
       noauto := h.noauto, committed := h.committed, working := rfl, sorted := h.sorted,
       bound := h.bound, kindsLen := h.kindsLen, kindsAt := h.kindsAt, root := h.root,
       rootOk := h.rootOk, rootNone := h.rootNone,
@@ -196,7 +196,7 @@ theorem sim_afterSavepoint {c : Conn} {s : Spec} (h : Sim c s) {t : Nat} (ht : s
   have hsame : ∀ sc ∈ s.scopes, c.afterSavepoint.txn sc.h = c.txn sc.h := fun sc hsc =>
     afterSavepoint_txn_lt c sc.h (chain_handles_lt h.chain sc hsc)
   refine
-    { dbapi := h.dbapi, reconn := h.reconn, nofault := h.nofault, noctx := h.noctx,
+    { dbapi := h.dbapi, reconn := h.reconn, nofault := h.nofault, nolistener := h.nolistener, noctx := h.noctx,
       noauto := h.noauto, committed := h.committed, working := h.working, sorted := ?sorted,
       bound := ?bound, kindsLen := ?kindsLen, kindsAt := ?kindsAt, root := h.root,
       rootOk := ?rootOk, rootNone := ?rootNone,
@@ -277,7 +277,7 @@ theorem sim_beginNested {c : Conn} {s : Spec} (h : Sim c s) :
   have hab : c.autobegin = (c.autobegin.1, .ok) := by rw [← h1ok]
   -- the connection with the sequence bumped still simulates (only `bound` weakens)
   have h2 : Sim { c.autobegin.1 with spSeq := c.autobegin.1.spSeq + 1 } s.autobegin :=
-    { dbapi := h1.dbapi, reconn := h1.reconn, nofault := h1.nofault, noctx := h1.noctx,
+    { dbapi := h1.dbapi, reconn := h1.reconn, nofault := h1.nofault, nolistener := h1.nolistener, noctx := h1.noctx,
       noauto := h1.noauto, committed := h1.committed, working := h1.working, sorted := h1.sorted,
       bound := fun p hp => Nat.le_succ_of_le (h1.bound p hp), kindsLen := h1.kindsLen,
       kindsAt := h1.kindsAt, root := h1.root, rootOk := h1.rootOk, rootNone := h1.rootNone,
@@ -306,7 +306,7 @@ def Conn.endedRoot (c : Conn) (t : Nat) : Conn :=
 theorem sim_endedRoot {c : Conn} {s : Spec} (h : Sim c s) {t : Nat} (ht : s.root = some t)
     (db' : DB) (rows : Data)
     (hc : db'.committed = rows) (hw : db'.raw.working = rows) (hs : db'.raw.saves = [])
-    (hf : db'.faults = []) (ha : db'.raw.autocommit = false) :
+    (hf : db'.faults = []) (hl : db'.listener = .none) (ha : db'.raw.autocommit = false) :
     Sim (({ c with db := db' } : Conn).endedRoot t)
       { s with committed := rows, cur := rows, root := none, scopes := [] } := by
   have hch1 : ChainOk ({ c with db := db' } : Conn) ({ c with db := db' } : Conn).nested s.scopes :=
@@ -326,7 +326,8 @@ theorem sim_endedRoot {c : Conn} {s : Spec} (h : Sim c s) {t : Nat} (ht : s.root
     rw [deactivate_isRoot, k2.isRoot]
     rfl
   refine
-    { dbapi := ?dbapi, reconn := ?reconn, nofault := ?nofault, noctx := ?noctx,
+    { dbapi := ?dbapi, reconn := ?reconn, nofault := ?nofault,
+      nolistener := (by rw [e_db]; exact hl), noctx := ?noctx,
       noauto := ?noauto, committed := ?committed, working := ?working, sorted := ?sorted,
       bound := ?bound, kindsLen := ?kindsLen, kindsAt := ?kindsAt, root := rfl,
       rootOk := ?rootOk, rootNone := fun _ => rfl, clean := fun _ => rfl, savesNone := (fun _ => by rw [e_db]; exact hs),
@@ -426,7 +427,8 @@ theorem sim_rootCommit {c : Conn} {s : Spec} (h : Sim c s) {t : Nat} (ht : s.roo
   rw [rootCommit_sim h ht]
   refine ⟨?_, rfl⟩
   have := sim_endedRoot h ht c.db.commit s.cur (by simp [DB.commit, h.working]) (by simp [DB.commit, h.working])
-    (by simp [DB.commit]) (by simp [DB.commit, h.nofault]) (by simp [DB.commit, h.noauto])
+    (by simp [DB.commit]) (by simp [DB.commit, h.nofault]) (by simp [DB.commit, h.nolistener])
+    (by simp [DB.commit, h.noauto])
   simpa [Spec.endRoot, DB.commit, h.working] using this
 
 theorem sim_rootRollback {c : Conn} {s : Spec} (h : Sim c s) {t : Nat} (ht : s.root = some t)
@@ -436,7 +438,8 @@ theorem sim_rootRollback {c : Conn} {s : Spec} (h : Sim c s) {t : Nat} (ht : s.r
   refine ⟨?_, rfl⟩
   have := sim_endedRoot h ht c.db.rollback s.committed (by simp [DB.rollback, h.committed])
     (by simp [DB.rollback, h.committed])
-    (by simp [DB.rollback]) (by simp [DB.rollback, h.nofault]) (by simp [DB.rollback, h.noauto])
+    (by simp [DB.rollback]) (by simp [DB.rollback, h.nofault]) (by simp [DB.rollback, h.nolistener])
+    (by simp [DB.rollback, h.noauto])
   simpa [Spec.endRoot] using this
 
 
@@ -452,7 +455,7 @@ theorem sim_poppedNested {c : Conn} {s : Spec} (h : Sim c s) {t : Nat} (ht : s.r
     (hc : db'.committed = c.db.committed) (hw : db'.raw.working = rows)
     (hsub : (specSaves c rest).Sublist db'.raw.saves) (hso : Sorted db'.raw.saves)
     (hmem : ∀ p ∈ db'.raw.saves, p ∈ c.db.raw.saves)
-    (hf : db'.faults = []) (ha : db'.raw.autocommit = false) :
+    (hf : db'.faults = []) (hl : db'.listener = .none) (ha : db'.raw.autocommit = false) :
     Sim (({ c with db := db' } : Conn).poppedNested sc.h)
       { s with cur := rows, scopes := rest } := by
   have hch := h.chain
@@ -481,7 +484,7 @@ theorem sim_poppedNested {c : Conn} {s : Spec} (h : Sim c s) {t : Nat} (ht : s.r
   have hsame : ∀ x ∈ rest, (({ c with db := db' } : Conn).poppedNested n).txn x.h = c.txn x.h :=
     fun x hx => e_txn_ne x.h (fun e => hne x hx e.symm)
   refine
-    { dbapi := h.dbapi, reconn := h.reconn, nofault := hf, noctx := h.noctx,
+    { dbapi := h.dbapi, reconn := h.reconn, nofault := hf, nolistener := hl, noctx := h.noctx,
       noauto := ha, committed := by show db'.committed = s.committed; rw [hc]; exact h.committed,
       working := hw, sorted := hso,
       bound := fun p hp => h.bound p (hmem p hp), kindsLen := ?kindsLen, kindsAt := ?kindsAt,
@@ -595,7 +598,7 @@ theorem sim_nestedRollback {c : Conn} {s : Spec} (h : Sim c s) {t : Nat} (ht : s
       rcases List.mem_cons.1 hp with rfl | hp
       · exact t5
       · exact t4 p hp)
-    h.nofault h.noauto
+    h.nofault h.nolistener h.noauto
 
 theorem sim_nestedCommit {c : Conn} {s : Spec} (h : Sim c s) {t : Nat} (ht : s.root = some t)
     {sc : Scope} {rest : List Scope} (hsc : s.scopes = sc :: rest) :
@@ -612,7 +615,7 @@ theorem sim_nestedCommit {c : Conn} {s : Spec} (h : Sim c s) {t : Nat} (ht : s.r
   rw [hres]
   refine ⟨?_, rfl⟩
   have := sim_poppedNested h ht hsc db' s.cur rfl h.working t2 (List.pairwise_cons.1 t3).2
-    t4 h.nofault h.noauto
+    t4 h.nofault h.nolistener h.noauto
   exact this
 
 
@@ -624,7 +627,8 @@ theorem sim_frame {c c' : Conn} {s : Spec} (h : Sim c s)
     (h4 : c'.ctxMgr = c.ctxMgr) (h5 : c'.hasDbapi = c.hasDbapi)
     (h6 : c'.canReconnect = c.canReconnect) (h7 : c'.db = c.db) : Sim c' s :=
   { dbapi := by rw [h5]; exact h.dbapi, reconn := by rw [h6]; exact h.reconn,
-    nofault := by rw [h7]; exact h.nofault, noctx := by rw [h4]; exact h.noctx,
+    nofault := by rw [h7]; exact h.nofault, nolistener := by rw [h7]; exact h.nolistener,
+    noctx := by rw [h4]; exact h.noctx,
     noauto := by rw [h7]; exact h.noauto, committed := by rw [h7]; exact h.committed,
     working := by rw [h7]; exact h.working, sorted := by rw [h7]; exact h.sorted,
     bound := by rw [h7, h3]; exact h.bound, kindsLen := by rw [hlen]; exact h.kindsLen,
